@@ -178,6 +178,60 @@ def text_replay(prop):
     return lambda v: {"pipeline": "text", "q": v.get("q"), "judge": "JudgeEnum", "prop": prop}
 
 
+FAMILY_MEM = 8 << 30     # address-space limit of one recorder process of the adversarial families
+
+
+def _limit_mem():
+    import resource
+    resource.setrlimit(resource.RLIMIT_AS, (FAMILY_MEM, FAMILY_MEM))
+
+
+def run_families(run, sizes, res, only=None, timeout=7200):
+    """parse-families under an address-space limit.  A recorder process that dies (memory exhausted by an output that grows
+    exponentially, or killed) is not a broken machine but an observation: the sizes are then run one family at a time and the
+    family that kills its process gets a record with outcome "killed", which the C01 judge reports."""
+    def call(args, to):
+        try:
+            p = subprocess.run([HARNESS_BIN] + args, stdout=subprocess.PIPE, stderr=subprocess.PIPE, timeout=to, text=True, cwd=run.work, preexec_fn=_limit_mem)
+            return p.returncode, p.stdout, p.stderr
+        except subprocess.TimeoutExpired:
+            return -1, "", "timeout"
+    base = ["parse-families", "-sizes", ",".join(str(x) for x in sizes), "-out", res] + (["-only", only] if only else [])
+    rc, out, err = call(base, timeout)
+    if rc in (0, 3):
+        m = re.search(r"SUMMARY (.*)", out)
+        s = json.loads(m.group(1)) if m else {}
+        if rc == 3:
+            s["hang"] = True
+        return s
+    # some family kills the process: find out which
+    rc0, out0, _ = call(["parse-families", "-list"], 60)
+    names = json.loads(re.search(r"SUMMARY (.*)", out0).group(1))["families"] if rc0 == 0 else []
+    if only:
+        names = [only]
+    if not names:
+        raise Broken("harness parse-families failed (%d): %s" % (rc, err[-500:]))
+    lines, calls, killed = [], 0, []
+    for sz in sizes:
+        for fam in names:
+            part = res + ".part"
+            rc, out, err = call(["parse-families", "-sizes", str(sz), "-only", fam, "-out", part], 900)
+            if rc in (0, 3) and os.path.exists(part):
+                lines += open(part).read().splitlines()
+                calls += 2
+            else:
+                dead = {"q": "", "outcome": "killed", "e_nil": True, "err_nil": True, "validate_ok": False, "tree": {"op": "NIL"}, "nsteps": 0,
+                        "attempts": 0, "popped": 0, "ntoks": 0, "lex_err": False}
+                lines.append(json.dumps({"id": len(lines) + 1, "q": "%s n=%d: (the recorder process died: %s)" % (fam, sz, "timeout" if rc == -1 else "exit %d, memory limit %d GB" % (rc, FAMILY_MEM >> 30)),
+                                         "family": fam, "n": sz, "toks": [], "df": "df", "res": dead, "resdf": dead, "ms": 0, "parse_ms": 0}))
+                killed.append("%s n=%d" % (fam, sz))
+            if os.path.exists(part):
+                os.remove(part)
+    with open(res, "w") as f:
+        f.write("\n".join(lines) + "\n")
+    return {"texts": len(lines), "calls": calls, "killed": killed}
+
+
 def family_replay(prop):
     def mk(v):
         m = re.match(r"(\w+) n=(\d+):", v.get("q") or "")
@@ -377,7 +431,7 @@ def replay_case(run, rp):
         stage_judge_trees(sub, res, rp["prop"], cf)
     elif rp["pipeline"] == "family":
         res = os.path.join(sub.work, "fam.ndjson")
-        sub.harness(["parse-families", "-sizes", str(rp["n"]), "-only", rp["family"], "-out", res], timeout=600)
+        run_families(sub, [rp["n"]], res, only=rp["family"], timeout=900)
         stage_judge_enum(sub, res, rp["prop"])
     else:
         raise Broken("unknown replay pipeline " + rp["pipeline"])
